@@ -3,7 +3,9 @@ Spec for the program-level stream of C04: a small DEFINITIONAL interpreter for e
 shape the generator of `vlib/props/c04.py` emits (small integers, strings, error values; functions,
 methods of one class, `while`/`for` loops, `try`/`catch`/`raise`, and callbacks run by native code:
 `iter().each`, lazy `map`/`filter` stages consumed by `each`, a `for` loop, `.list()`, `List.collect`,
-`Tuple.collect`, `reduce`, `all`, `any`, `zip(..).list()`, and `List.sort` comparators).  It is
+`Tuple.collect`, `reduce`, `all`, `any`, `zip(..).list()`, and `List.sort` comparators; closures bound
+to locals — `let f = |a| { .. };` — that capture parameters, locals of `try` blocks and `catch`
+clauses and the clauses' error variables, and are called while in scope).  It is
 written from the language's meaning, NOT from the handler mechanism:
 
 * an error is an OUTCOME of evaluating a statement; it abandons evaluation up to the nearest
@@ -27,14 +29,6 @@ As a self-check the interpreter also carries the dynamic handler stack as an exp
 Core Lean only.
 -/
 namespace LaytheVerif.TrySpec
-
-inductive Val where
-  | int (n : Int)
-  | str (s : String)
-  | nil
-  | bool (b : Bool)
-  | err (cls : String) (msg : String)
-  deriving Repr, Inhabited, BEq
 
 inductive Expr where
   | int (n : Int)
@@ -88,6 +82,27 @@ inductive Stmt where
   | sort (vals : List Int) (k : Int) (body : List Stmt)
   /-- `exit(n);` ends the program with code `n`; it is not an error: no handler sees it -/
   | exit (code : Nat)
+  /-- `let f = |params| { body };` — a closure: `body` sees (and may assign) every variable in scope at
+  the declaration BY REFERENCE — parameters, locals declared before it (inside a `try` block, inside a
+  `catch` clause, in a loop body), the clause's error variable — for as long as `f` itself is in scope -/
+  | lam (f : String) (params : List String) (body : List Stmt)
+  /-- `let dst = f(args);` (`dst = some _`) or `f(args);` for a closure `f` declared by `lam` -/
+  | calll (dst : Option String) (f : String) (args : List Expr)
+  deriving Repr, Inhabited
+
+/-- values.  A closure value is the text of its lambda: the generator gives every variable of a
+program its own name and a closure is only ever bound by `Stmt.lam` (never assigned, passed or
+returned), so it is called only while the block that declared it is live; the bindings its body
+mentions are then exactly the ones that were in scope at the declaration — the same bindings, not
+copies — and running the body in the environment of the CALL is lexical scoping with capture by
+reference. -/
+inductive Val where
+  | int (n : Int)
+  | str (s : String)
+  | nil
+  | bool (b : Bool)
+  | err (cls : String) (msg : String)
+  | clo (params : List String) (body : List Stmt)
   deriving Repr, Inhabited
 
 structure Fun where
@@ -201,6 +216,7 @@ def showVal : Val → String
   | .nil => "nil"
   | .bool b => if b then "true" else "false"
   | .err c _ => s!"<{c}>"
+  | .clo _ _ => "<fn>"
 
 /-- `is_falsey`: `nil` and `false` -/
 def falsey : Val → Bool
@@ -488,6 +504,30 @@ def execStmt (p : Prog) (fuel : Nat) (self : Bool) (hs : List HEntry) (st : St) 
         | (.exit n, st, env) => (.exit n, st, env)
         | (_, st, env) => (.stuck "exit statement in a sort comparator", st, env)
       else (.normal, pushOut st (sortedText vals), env)
+  | .lam f params body => (.normal, st, (f, .clo params body) :: env)
+  | .calll dst f args =>
+    match fuel with
+    | 0 => (.stuck "fuel", st, env)
+    | fuel + 1 =>
+      match env.lookup f with
+      | some (.clo params body) =>
+        match evalArgs p fuel self hs st env args with
+        | (.inr (.err c m k), st) => (.err c m k, st, env)
+        | (.inr (.exit n), st) => (.exit n, st, env)
+        | (.inr (.stuck w), st) => (.stuck w, st, env)
+        | (.inr (.ok _), st) => (.stuck "arguments", st, env)
+        | (.inl vs, st) =>
+          if vs.length != params.length then (.stuck "closure arity", st, env) else
+          -- the call is an ordinary call: an error raised in the body is an outcome of THIS statement
+          match callLam p fuel self hs st env ((params.zip vs).reverse) body with
+          | (.ok v, st, env) =>
+            (.normal, st, match dst with
+              | some x => (x, v) :: env
+              | none => env)
+          | (.err c m k, st, env) => (.err c m k, st, env)
+          | (.stuck w, st, env) => (.stuck w, st, env)
+          | (.exit n, st, env) => (.exit n, st, env)
+      | _ => (.stuck s!"{f} is not a closure in scope", st, env)
   | .try_ body catches =>
     match fuel with
     | 0 => (.stuck "fuel", st, env)
